@@ -116,7 +116,9 @@ class MsgAdapter:
             elif op == "OpSetAvps":
                 m.avps = [self.obj(h, args[0]), self.obj(h, args[1])]
             elif op == "OpSetItem":
-                m[args[0] - 1] = self.obj(h, args[1])
+                # the same position, named from the front or (every other time) from the back
+                h.nset = getattr(h, "nset", 0) + 1
+                m[args[0] - 1 if h.nset % 2 else args[0] - 1 - len(m.avps)] = self.obj(h, args[1])
             elif op == "OpUpdateKey":
                 m.update_key(keystr(args[0]), keystr(args[1]))
             elif op == "OpUpdateData":
